@@ -1,0 +1,22 @@
+// Copyright The gittuf Authors
+// SPDX-License-Identifier: Apache-2.0
+
+//go:build verif
+
+// gvc contracts (comment-only, read under the "verif" build tag).
+
+package attestations
+
+//@ func ext:(pkg/gitstore.Storer).ReadBlob -> (b, err)
+//@   trusted
+//@   assigns ghost faults
+//@   ensures faults == old(faults) + ite(err != nil, 1, 0)
+
+//@ # C09: whatever path a blob is stored at, a getter only returns statements that name the requested change
+//@ func [C09] (*Attestations).GetReferenceAuthorizationFor -> (env, err)
+//@   requires a != nil && repo != nil
+//@   ensures namesChange: err == nil ==> env != nil && authNamesChange(env, refName, fromID, toID)
+
+//@ func [C09] (*Attestations).GetGitHubPullRequestApprovalAttestationFor -> (env, err)
+//@   requires a != nil && repo != nil
+//@   ensures namesChange: err == nil ==> env != nil && approvalNamesChange(env, refName, fromRevisionID, targetTreeID)
